@@ -57,6 +57,11 @@ structure Engines where
 def hybridFindAll (E : Engines) (t : Int) (r : Re) (b : List UInt8) : List (Nat × Nat) :=
   if hasRE2 t && useRE2 t b.length then E.re2 r b else E.grafana r b
 
+/-- `FindAllIndex` as a choice between the two engines' own results for the same call (`g`, `r2`): the wrapper adds
+    nothing of its own — no splitting, no re-compilation in another mode, no post-processing — at any input size -/
+def hybridSelect {α : Type} (t : Int) (inputLen : Nat) (g r2 : α) : α :=
+  if hasRE2 t && useRE2 t inputLen then r2 else g
+
 /-- which engine `FindAllIndex` runs: `true` = go-re2 -/
 def dispatch (t : Int) (inputLen : Nat) : Bool := hasRE2 t && useRE2 t inputLen
 
